@@ -35,6 +35,10 @@ def check_pair(ctx, sc):
         classes.append("acc-release")
     ctx.note(sc, nontrivial=nt, classes=classes)
     if out["how"] == "budget":
+        ll = L.livelock(out, L.time_bound(sc))
+        if ll:
+            ctx.fail("never-ends", ll, f"step budget exhausted at virtual t={rep['now']} s, far beyond every timeout ({L.time_bound(sc)} s allowed): threads still alive {[(t['name'], t['state'], t['label'], t.get('where')) for t in rep['threads'] if t['state'] != 'done']}; scenario {_brief(sc)}")
+            return
         ctx.inconclusive += 1
         bs = ctx.extra.setdefault("budget_samples", [])
         if len(bs) < 3:
